@@ -11,13 +11,23 @@ export CARGO_NET_OFFLINE=true CARGO_TARGET_DIR=/tmp/vs/target-$slot CARGO_BUILD_
 git -C /repo worktree add -q --detach "$wt" HEAD || exit 2
 cd "$wt"
 res=0
-cp "$demo" tests/seed_demo.rs
+# the demo is either a test file (copied to tests/seed_demo.rs) or a standalone cargo project directory whose
+# Cargo.toml names the worktree by a `path = "..."` dependency on redb (needed when it depends on redb 3.0.0 too)
+if [ -d "$demo" ]; then
+  dp=/tmp/vs/demo.$$; rm -rf $dp; cp -r "$demo" $dp; rm -rf $dp/target
+  sed -i "s#^redb = { path = \"[^\"]*\"#redb = { path = \"$wt\"#" $dp/Cargo.toml
+  cp "$wt/Cargo.lock" $dp/Cargo.lock 2>/dev/null
+  rundemo() { (cd $dp && RUSTFLAGS="--cfg redb_verif" cargo run --offline); }
+else
+  cp "$demo" tests/seed_demo.rs
+  rundemo() { RUSTFLAGS="--cfg redb_verif" cargo test --offline --features experimental_cursor --test seed_demo; }
+fi
 echo "== demo WITHOUT patch" > "$out/verify.log"
-if RUSTFLAGS="--cfg redb_verif" cargo test --offline --features experimental_cursor --test seed_demo >> "$out/verify.log" 2>&1; then echo "demo_without_patch=pass" | tee -a "$out/verify.log"; else echo "demo_without_patch=FAIL" | tee -a "$out/verify.log"; res=1; fi
+if rundemo >> "$out/verify.log" 2>&1; then echo "demo_without_patch=pass" | tee -a "$out/verify.log"; else echo "demo_without_patch=FAIL" | tee -a "$out/verify.log"; res=1; fi
 if git apply "$patch"; then echo "patch_applies=yes" | tee -a "$out/verify.log"; else echo "patch_applies=NO" | tee -a "$out/verify.log"; res=1; fi
 echo "== demo WITH patch" >> "$out/verify.log"
-if RUSTFLAGS="--cfg redb_verif" cargo test --offline --features experimental_cursor --test seed_demo >> "$out/verify.log" 2>&1; then echo "demo_with_patch=PASS(unexpected)" | tee -a "$out/verify.log"; res=1; else echo "demo_with_patch=fail(expected)" | tee -a "$out/verify.log"; fi
-rm -f tests/seed_demo.rs
+if rundemo >> "$out/verify.log" 2>&1; then echo "demo_with_patch=PASS(unexpected)" | tee -a "$out/verify.log"; res=1; else echo "demo_with_patch=fail(expected)" | tee -a "$out/verify.log"; fi
+rm -f tests/seed_demo.rs; [ -n "${dp:-}" ] && rm -rf "$dp"
 echo "== suite WITH patch" >> "$out/verify.log"
 cargo nextest run -p redb@4.2.0 -p redb-derive -p redb-derive-rename-test --features redb/experimental_cursor --no-fail-fast --tool-config-file pb:/w/lib/nextest.toml --profile pb --test-threads 6 --offline > "$out/suite.log" 2>&1
 tail -3 "$out/suite.log" | tee -a "$out/verify.log"
